@@ -11,7 +11,7 @@ LEVEL_TEXT = ("Fitted WassersteinVectorizer (LOT_exact, LOT_sinkhorn) and Sinkho
               "different memory_size / chunk sizes, and the same data as sparse matrix, lists and generators; embeddings must coincide. With "
               "n_components = n_rows the pairwise Euclidean distances of embedding_ must equal those of the raw LOT vectors returned by the "
               "public lot_vectors_sparse_internal. HeuristicLinearAlgebra / ApproximateWasserstein take their vectors at fit, so for them the "
-              "re-encodings are applied to a re-fit and rotation-proof pairwise distances are compared. Held = no violation on the executions produced.")
+              "re-encodings are applied to a re-fit and rotation-proof pairwise distances are compared. A seventh of the exact-LOT cases run with an active max_distribution_size truncation (distinct weights, so the kept points are determined; the split relation is not a symmetry there and is skipped). Held = no violation on the executions produced.")
 LEVEL_NOTE = "Vectors are continuous random, so exact optimal plans are almost surely unique; tolerance 1e-9*scale for exact LOT, 1e-6*scale for entropic (Sinkhorn) pipelines whose iterations stop on a tolerance; 1e-3 for distances after a multi-block fit (blocks are spilled as float32)."
 RULE = ("case = (vectors, distributions, metric, method, reference, memory size); one evaluation per relation; non-trivial when X' has >= 3 rows with "
         "pairwise different supports and the reference has >= 2 points; distinct = hash of the case + relation")
